@@ -217,10 +217,13 @@ def store (es : List (Key × Entry)) (k : Key) (e : Entry) : List (Key × Entry)
 def splitHost (host : List Char) : List Char × List Char :=
   if host.getLast? = some '.' then (host.map lowerAscii, host.dropLast) else (canon host, host)
 
-/-- `NormalizeAndCacheDnsResp_`: the TTL handed to `updateDnsCache` (TTL of the first answer, 120
-for an empty answer, at most one year). -/
-def normTtl (nAns : Nat) (firstTtl : Nat) (otherTtl : Nat := firstTtl) : Nat :=
-  min (if nAns = 0 then 120 else if nAns = 1 then firstTtl else min firstTtl otherTtl) 31536000
+/-- `NormalizeAndCacheDnsResp_`: the TTL handed to `updateDnsCache`, from the TTLs of the answer
+records in the order of the reply: the smallest of them (the loop over `msg.Answer[1:]`), 120 for an
+empty answer section, at most one year. -/
+def normTtl (ttls : List Nat) : Nat :=
+  min (match ttls with
+       | [] => 120
+       | t :: rest => rest.foldl min t) 31536000
 
 /-- the guard at the top of `NormalizeAndCacheDnsResp_` -/
 def cacheable (isResponse : Bool) (nQuestions rcode : Nat) (qclass : Nat := classIN) : Bool :=
@@ -504,33 +507,41 @@ def run (w : World) : List Op → World × List LRes
 
 /-! ## A whole request (`HandleWithResponseWriter_`) as a piece of history -/
 
-/-- what the upstream answers when it is asked (round trip: one second) -/
+/-- what the upstream side does with a forwarded question.  Every exchange with an upstream takes one
+second; `hops` of them happen (response routing may send the question on to another upstream:
+`dialSend` calls itself), the last one yields the reply — or fails (`fail`: the dial / the exchange
+returns an error). -/
 structure Reply where
-  rttl : Nat             -- TTL of the first answer record
-  ottl : Nat             -- TTL of the answer records after the first
+  ttls : List Nat        -- TTLs of the answer records, in the order of the reply
   ans : Nat
-  nAns : Nat
   ns : Nat
   rcode : Nat
+  fail : Bool := false
+  hops : Nat := 1
 deriving Repr
 
 /-- The operations one request expands to, given the world it arrives in: derive the key from the
-question (name, type, class) and the route; look it up.  Fresh or latched-stale hit: nothing else.
-Stale hit with `needRefresh`: `go backgroundRefresh` — one round trip later the reply is stored under
-the same key (if cacheable) and the clean-up runs.  Miss: the request is forwarded; one round trip
-later the reply is stored (if cacheable) and the key is looked up once more (the caller drops that
-lookup's `needRefresh`). -/
+question (name, type, class) and the route.
+* Route `reject`: the whole family of the question (every scope) is purged, nothing is looked up.
+* Otherwise look the key up.  Fresh or latched-stale hit: nothing else.
+  Stale hit with `needRefresh`: `go backgroundRefresh` — after the upstream exchange(s) the reply is
+  stored under the same key (if there is one and it is cacheable) and the clean-up runs, reply or not.
+  Miss: the request is forwarded; if the exchange fails the caller gets the error and nothing else
+  happens; otherwise the reply is stored (if cacheable) and the key is looked up once more (the caller
+  drops that lookup's `needRefresh`). -/
 def askOps (w : World) (t : Int) (name : List Char) (qtype qclass : Nat) (r : Route) (rep : Reply)
     (g : Nat := 1) : List Op :=
+  if r = .reject then [.removeFamily (questionKey name qtype qclass)] else
   let key := requestKey name qtype qclass r
+  let t1 := t + rep.hops * SEC
   let store : List Op :=
-    if cacheable true 1 rep.rcode qclass then
-      [.insert (t + SEC) key (fqdn name) qtype (normTtl rep.nAns rep.rttl rep.ottl) rep.ans rep.nAns rep.ns false]
+    if !rep.fail && cacheable true 1 rep.rcode qclass then
+      [.insert t1 key (fqdn name) qtype (normTtl rep.ttls) rep.ans rep.ttls.length rep.ns false]
     else []
   let first : List Op := List.replicate g (.lookup t key false)
   match (step w (.lookup t key false)).2 with
-  | .hit s => if s.refresh then first ++ (store ++ [.refreshDone (t + SEC) key]) else first
-  | .miss => first ++ (store ++ List.replicate g (.lookup (t + SEC) key false))
+  | .hit s => if s.refresh then first ++ (store ++ [.refreshDone t1 key]) else first
+  | .miss => first ++ (store ++ (if rep.fail then [] else List.replicate g (.lookup t1 key false)))
 
 /-- the request(s), executed: final world and the answers of the operations they consisted of.
 `g` identical requests arriving at the same instant are coalesced by the singleflight group: one
